@@ -272,7 +272,7 @@ def judge(src, *, optimize=True, power_pole_type=None, rnd=None, scalar_own_sign
             if isinstance(val, SigV) and val.type is not None:
                 m = ARROW_RE.search(a.desc)
                 if m and m.group(1) not in (val.type, "signal-each", "bundle"):
-                    if val.note == "cmp-nonvirtual" and (m.group(1).startswith("signal-")):
+                    if val.note in ("cmp-nonvirtual", "param") and (m.group(1).startswith("signal-")):
                         # class of KF-C01-comparison-result-type: judge the VALUE on the channel used
                         type_dev = m.group(1)
                         pairs = [(type_dev, val.v, content.get(type_dev, B.const(0)))]
@@ -281,7 +281,9 @@ def judge(src, *, optimize=True, power_pole_type=None, rnd=None, scalar_own_sign
                         continue
             st, model, label = _differs(B, pairs)
             if st == "same":
-                if type_dev:
+                if type_dev and val.note == "param":
+                    pv.outputs.append(OutputVerdict(name, "type-deviation-param", f"result typed through a function parameter ({val.type}) carried on {type_dev}; value correct"))
+                elif type_dev:
                     pv.outputs.append(OutputVerdict(name, "type-deviation", f"comparison with item/fluid left operand ({val.type}) carried on {type_dev}; value correct"))
                 else:
                     pv.outputs.append(OutputVerdict(name, "ok"))
